@@ -2,6 +2,7 @@
 from hypothesis import strategies as st
 
 from .. import env, gen
+from ..core import HarnessError
 from ..hyp import run_given
 from ..ref import ring as refring
 
@@ -97,7 +98,6 @@ def build_router(b, case):
   settings['aggregation-rules'] = None
   cls = env.need(b.routers.DatapointRouter, 'plugins').get(case['router'])
   if cls is None:
-    from ..core import HarnessError
     raise HarnessError('router plugin %r is gone' % case['router'])
   router = cls(settings)
   for d in case['dests']:
@@ -154,7 +154,13 @@ def check_key(ctx, case, router, key, dests, ports, nservers):
 def execute(ctx, case):
   b = env.bootstrap()
   env.reset()
-  router = build_router(b, case)
+  try:
+    router = build_router(b, case)
+  except HarnessError:
+    raise
+  except Exception as e:  # noqa
+    ctx.fail('C05:router-construction-raised:%s' % type(e).__name__, 'configuring %r raised %r' % (case['dests'], e), dict(case, names=[]))
+    return
   dests = set(tuple(d) for d in case['dests'])
   nservers = len(set(d[0] for d in dests))
   keys = list(keys_for(case, router)) + list(case['names'])
